@@ -145,6 +145,8 @@ func runC10(c *Ctx, tier string) {
 	runPartialOutputForm(c, "C10-S5")
 	runGroupRowStamp(c, "C10-R1")
 	runSpillRunsShareContext(c, "C10-X1")
+	runPartialRecombinationNoPanic(c, "C10-P3")
+	runSpillKeyOrderTotal(c, "C10-K2")
 }
 
 func recvType(cc *ssa.CallCommon) types.Type {
